@@ -4,6 +4,9 @@ package symgo
 
 import (
 	"go/token"
+	"go/types"
+	"strings"
+	"unicode/utf8"
 )
 
 type c08B58Result struct {
@@ -59,7 +62,78 @@ func c08B58DecodeMemo(fr *frame, args []value) value {
 	return res
 }
 
+// strings.Builder: the real String() uses unsafe.String; the model keeps the bytes in the real
+// `buf` field (field 1 of struct{addr *Builder; buf []byte}) and omits the copy check.
+func c08BuilderBuf(args []value) structure {
+	return (*args[0].(*value)).(structure)
+}
+
+func c08BuilderAppend(st structure, s string) {
+	buf, _ := st[1].([]value)
+	for i := 0; i < len(s); i++ {
+		buf = append(buf, uint8(s[i]))
+	}
+	st[1] = buf
+}
+
+func c08BuilderString(st structure) string {
+	buf, _ := st[1].([]value)
+	b := make([]byte, len(buf))
+	for i, x := range buf {
+		b[i] = concretize(x, "strings.Builder byte").(uint8)
+	}
+	return string(b)
+}
+
 func init() {
+	for k, v := range map[string]externalFn{
+		"(*strings.Builder).WriteString": func(fr *frame, args []value) value {
+			s := args[1].(string)
+			c08BuilderAppend(c08BuilderBuf(args), s)
+			return tuple{len(s), iface{}}
+		},
+		"(*strings.Builder).WriteByte": func(fr *frame, args []value) value {
+			st := c08BuilderBuf(args)
+			buf, _ := st[1].([]value)
+			st[1] = append(buf, args[1])
+			return iface{}
+		},
+		"(*strings.Builder).WriteRune": func(fr *frame, args []value) value {
+			s := string(rune(asInt64(args[1])))
+			c08BuilderAppend(c08BuilderBuf(args), s)
+			return tuple{len(s), iface{}}
+		},
+		"(*strings.Builder).Write": func(fr *frame, args []value) value {
+			st := c08BuilderBuf(args)
+			buf, _ := st[1].([]value)
+			p, _ := args[1].([]value)
+			st[1] = append(buf, p...)
+			return tuple{len(p), iface{}}
+		},
+		"(*strings.Builder).String": func(fr *frame, args []value) value { return c08BuilderString(c08BuilderBuf(args)) },
+		"(*strings.Builder).Len": func(fr *frame, args []value) value {
+			buf, _ := c08BuilderBuf(args)[1].([]value)
+			return len(buf)
+		},
+		"(*strings.Builder).Grow":  func(fr *frame, args []value) value { return nil },
+		"(*strings.Builder).Reset": func(fr *frame, args []value) value { c08BuilderBuf(args)[1] = []value(nil); return nil },
+		// strings.Map(mapping, s): the real algorithm (drop negative results), calling the real mapping
+		"strings.Map": func(fr *frame, args []value) value {
+			s := args[1].(string)
+			out := make([]byte, 0, len(s))
+			for _, r := range s {
+				m := rune(asInt64(concretize(call(fr.i, fr, token.NoPos, args[0], []value{r}), "strings.Map result")))
+				if m >= 0 {
+					out = utf8.AppendRune(out, m)
+				}
+			}
+			return string(out)
+		},
+	} {
+		if externals[k] == nil {
+			externals[k] = v
+		}
+	}
 	// txstatus.IsEnabled() is a build-time constant (false without the FFI build tag, true with
 	// it); both builds are explored.
 	externals["github.com/rpcpool/yellowstone-faithful/txstatus.IsEnabled"] = func(fr *frame, args []value) value {
@@ -67,4 +141,119 @@ func init() {
 		return EX.Choose(2, "txstatus.IsEnabled") == 1
 	}
 	externals[c08B58Decode] = c08B58DecodeMemo
+}
+
+// ---------------------------------------------------------------------------
+// protobuf getters of the generated old-faithful-grpc messages (the package cannot be a source
+// root: it instantiates generics of google.golang.org/grpc). A generated getter is
+//   func (x *T) GetF() FT { if x != nil { return x.F }; return <zero> }
+// and for a oneof member
+//   func (x *T) GetF() *M { if w, ok := x.GetOneof().(*T_F); ok { return w.F }; return nil }
+// c08PbGetter implements exactly that by field name.
+func c08PbGetter(field string) externalFn {
+	return func(fr *frame, args []value) value {
+		stub("protobuf getter (model: generated nil-safe field read)")
+		res := fr.fn.Signature.Results().At(0).Type()
+		recv, _ := args[0].(*value)
+		if recv == nil {
+			return zero(res)
+		}
+		pt, _ := fr.fn.Signature.Recv().Type().Underlying().(*types.Pointer)
+		st, _ := pt.Elem().Underlying().(*types.Struct)
+		val := (*recv).(structure)
+		for i := 0; i < st.NumFields(); i++ {
+			if st.Field(i).Name() == field {
+				return val[i]
+			}
+		}
+		// oneof: an interface-typed field holding *Wrapper{F}
+		for i := 0; i < st.NumFields(); i++ {
+			if _, ok := st.Field(i).Type().Underlying().(*types.Interface); !ok {
+				continue
+			}
+			w, _ := val[i].(iface)
+			if w.t == nil {
+				continue
+			}
+			wpt, ok := w.t.Underlying().(*types.Pointer)
+			if !ok {
+				continue
+			}
+			wst, ok := wpt.Elem().Underlying().(*types.Struct)
+			if !ok || wst.NumFields() != 1 || wst.Field(0).Name() != field {
+				continue
+			}
+			wp, _ := w.v.(*value)
+			if wp == nil {
+				return zero(res)
+			}
+			return (*wp).(structure)[0]
+		}
+		return zero(res)
+	}
+}
+
+// grpc status: counterpart of the status.Errorf model of ext_C03.go / status.Code of ext_C19.go
+// (an engine error with text "rpc error: code = <Name> desc = <msg>").
+type c08Status struct {
+	code uint32
+	msg  string
+}
+
+var c08Statuses = map[*value]c08Status{}
+
+func c08ParseStatus(fr *frame, e iface) (c08Status, bool) {
+	msg := errorMessage(fr, e)
+	const pfx = "rpc error: code = "
+	if strings.HasPrefix(msg, pfx) {
+		rest := msg[len(pfx):]
+		for i, n := range grpcCodeNames {
+			if strings.HasPrefix(rest, n+" desc = ") {
+				return c08Status{uint32(i), rest[len(n)+len(" desc = "):]}, true
+			}
+		}
+	}
+	return c08Status{2, msg}, false
+}
+
+func init() {
+	const pb = "github.com/rpcpool/yellowstone-faithful/old-faithful-proto/old-faithful-grpc"
+	for _, g := range [][2]string{
+		{"GetRequest", "Id"}, {"GetRequest", "Block"}, {"GetRequest", "Transaction"}, {"GetRequest", "Version"}, {"GetRequest", "BlockTime"},
+		{"Transaction", "Transaction"}, {"Transaction", "Meta"},
+	} {
+		name := "(*" + pb + "." + g[0] + ").Get" + g[1]
+		if externals[name] == nil {
+			externals[name] = c08PbGetter(g[1])
+		}
+	}
+
+	// status.FromError(err): nil -> (nil, true); an error made by status.Errorf -> (its status,
+	// true); anything else -> (Unknown status carrying err.Error(), false).
+	externals["google.golang.org/grpc/status.FromError"] = func(fr *frame, args []value) value {
+		stub("grpc/status.FromError (model: parses the text of the status.Errorf model)")
+		resT := fr.fn.Signature.Results().At(0).Type() // *status.Status
+		e, _ := args[0].(iface)
+		if e.t == nil {
+			return tuple{zero(resT), true}
+		}
+		st, ok := c08ParseStatus(fr, e)
+		cell := new(value)
+		*cell = zero(resT.Underlying().(*types.Pointer).Elem())
+		c08Statuses[cell] = st
+		return tuple{cell, ok}
+	}
+	statusMethod := func(name string, f func(c08Status) value) {
+		for _, pkg := range []string{"google.golang.org/grpc/internal/status", "google.golang.org/grpc/status"} {
+			externals["(*"+pkg+".Status)."+name] = func(fr *frame, args []value) value {
+				p, _ := args[0].(*value)
+				if p == nil {
+					return f(c08Status{0, ""}) // nil *Status: OK, ""
+				}
+				return f(c08Statuses[p])
+			}
+		}
+	}
+	statusMethod("Code", func(s c08Status) value { return s.code })
+	statusMethod("Message", func(s c08Status) value { return s.msg })
 }
